@@ -1,0 +1,7 @@
+//go:build !verif
+
+package utreexo
+
+// verifPoint marks a point inside a critical section of MapPollard. It does nothing
+// unless the package is built with the build tag "verif".
+func verifPoint(site string) {}
